@@ -386,10 +386,12 @@ class _SwitchMem:
 
 
 HISTORY = [
-    # (description, bytes placed at the SAME address as the instruction under test)
-    ("same opcode, zero operands", None),
-    ("CALL then block add (dirty temps, call depth)", [0x04, 0x34, 0x12]),
-    ("DADL (BCD temps)", [0xC4, 0x10, 0x20]),
+    # (description, bytes, address or None = the address of the instruction under test)
+    ("same opcode, zero operands, same address", None, None),
+    ("CALL at the same address (call depth bookkeeping)", [0x04, 0x34, 0x12], None),
+    ("DADL (BCD and accumulator temps)", [0xC4, 0x10, 0x20], None),
+    ("near CALL on another 64K page (return-page bookkeeping)", [0x04, 0x34, 0x12], 0x31000),
+    ("ADCL with a non-zero result (zero accumulator temp left dirty)", [0x54, 0x10, 0x20], None),
 ]
 
 
@@ -467,10 +469,11 @@ def run_path_hist(eng, pre, opcode, hist_idx, block_n=None, addr=0x1000):
     # ---- run B: same process, an emulator with a history
     swb = _SwitchMem()
     hm = SymMem("hist", eng)
-    desc, hbytes = HISTORY[hist_idx]
+    desc, hbytes, haddr = HISTORY[hist_idx]
+    haddr = addr if haddr is None else haddr
     hb = hbytes if hbytes is not None else code + [0] * 6
     for i in range(16):
-        hm.cache[addr + i] = hb[i] if i < len(hb) else 0
+        hm.cache[haddr + i] = hb[i] if i < len(hb) else 0
     swb.cur = hm
     eb = EMU.Emulator(EMU.Memory(swb.read, swb.write), reset_on_init=False)
     for r, v in (("BA", 0x1234), ("I", 2), ("X", 0x20010), ("Y", 0x20020), ("U", 0x30000), ("S", 0x40000), ("F", 1)):
@@ -485,7 +488,7 @@ def run_path_hist(eng, pre, opcode, hist_idx, block_n=None, addr=0x1000):
 
     hm.read = hread
     try:
-        eb.execute_instruction(addr)
+        eb.execute_instruction(haddr)
     except core.EngineSignal:
         raise
     except BaseException:  # noqa: BLE001 - the history may end any way it likes
@@ -542,3 +545,84 @@ def hist_entry(unit):
     env.setup()
     return check_unit_hist(unit.get("pre"), unit["opcode"], unit["hist"], unit.get("block_n"),
                            wall_s=unit.get("wall_s", 600))
+
+
+# --------------------------------------------------------------------------- C07 bounded companion
+def unit_hist_concrete(unit):
+    """Bounded stand-in (concrete values): process-wide / per-object caches keyed on part of the
+    instruction bytes cannot be reached symbolically (hashing a symbolic key), so the same 2-safety
+    statement is also sampled concretely: the history is the same opcode with the same leading k
+    bytes but a different tail, executed (a) on another Emulator object in the same process and
+    (b) on the same Emulator object, before the instruction under test."""
+    import random
+    from symx import env
+    env.setup()
+    EMU, OPC, asm_str = _mods()
+    RN = EMU.RegisterName
+    t0 = time.time()
+    pre, opcode = unit.get("pre"), unit["opcode"]
+    rng = random.Random((unit.get("seed", 0) << 16) ^ (opcode << 4) ^ (pre or 0))
+    code0 = ([pre] if pre is not None else []) + [opcode]
+    obs = []
+    n = unit.get("samples", 6)
+
+    def make(mem, regs):
+        e = EMU.Emulator(EMU.Memory(lambda a: mem.get(a, 0), lambda a, v: mem.__setitem__(a, v & 0xFF)), reset_on_init=False)
+        for r, v in regs.items():
+            e.regs.set(RN[r], v)
+        return e
+
+    def run(e, addr):
+        try:
+            e.execute_instruction(addr)
+            out = "ok"
+        except Exception as ex:  # noqa: BLE001
+            out = type(ex).__name__
+        return out
+
+    for s in range(n):
+        tail = [rng.randrange(256) for _ in range(6)]
+        if s % 2 == 0:
+            tail[0] = rng.choice([0x04, 0x24, 0x34, 0x84, 0xC4, 0x00, 0x80, 0xC0, 0x42])
+        k = rng.randrange(0, 6)
+        htail = tail[:k] + [(x ^ rng.randrange(1, 256)) for x in tail[k:]]
+        regs = dict(BA=rng.randrange(1 << 16), I=rng.choice([1, 2, 3]), X=0x20000 + rng.randrange(0x1000), Y=0x30000 + rng.randrange(0x1000),
+                    U=0x40000 + rng.randrange(0x1000), S=0x50000 + rng.randrange(0x1000), F=rng.randrange(4))
+        base = {0x100000 + i: rng.randrange(256) for i in range(256)}
+        addr = 0x1000
+        img = dict(base)
+        for i, b in enumerate(code0 + tail):
+            img[addr + i] = b
+        himg = dict(base)
+        for i, b in enumerate(code0 + htail):
+            himg[addr + i] = b
+        # run A: pristine object, nothing before
+        ma = dict(img)
+        ea = make(ma, regs)
+        oa = run(ea, addr)
+        for variant in ("other-object", "same-object"):
+            mb = dict(img)
+            if variant == "other-object":
+                hm = dict(himg)
+                run(make(hm, regs), addr)
+                eb = make(mb, regs)
+            else:
+                cur = {"m": dict(himg)}
+                eb = EMU.Emulator(EMU.Memory(lambda a: cur["m"].get(a, 0), lambda a, v: cur["m"].__setitem__(a, v & 0xFF)), reset_on_init=False)
+                for r, v in regs.items():
+                    eb.regs.set(RN[r], v)
+                run(eb, addr)
+                cur["m"] = mb
+                for r, v in regs.items():
+                    eb.regs.set(RN[r], v)
+                eb.state.halted = False
+            ob_ = run(eb, addr)
+            same = oa == ob_ and all(ea.regs.get(RN[r]) == eb.regs.get(RN[r]) for r in ("BA", "I", "X", "Y", "U", "S", "F", "PC")) \
+                and {a: v for a, v in ma.items() if v} == {a: v for a, v in mb.items() if v} and ea.state.halted == eb.state.halted
+            obs.append(core.Obligation(f"concrete-history:{variant}", "proved" if same else "failed", backend="enumeration",
+                                       detail=None if same else f"bytes {bytes(code0 + tail).hex()} after history {bytes(code0 + htail).hex()} ({variant}): "
+                                       f"{oa}/{ob_} PC {ea.regs.get(RN.PC):#x}/{eb.regs.get(RN.PC):#x} BA {ea.regs.get(RN.BA):#x}/{eb.regs.get(RN.BA):#x}"))
+    return dict(unit=unit, status="ok", error=None, kinds={"samples": n}, obligations=len(obs),
+                proved=sum(o.status == "proved" for o in obs), failed=[o.as_dict() for o in obs if o.status == "failed"][:6],
+                nfailed=sum(o.status == "failed" for o in obs), unknown=0, undecided_notes=[], stats=dict(paths=0, queries=0, solver_s=0.0),
+                by_backend={"enumeration": sum(o.status == "proved" for o in obs)}, wall_s=round(time.time() - t0, 2), bounded=True)
